@@ -50,7 +50,7 @@ func comparisonDomain(p *ssa.Parameter) ([]int64, string) {
 }
 
 func rulesC13(c *Ctx, r *Report) {
-	r.explain("Decides: (T-NTOI) the ntoi table after init is -1 everywhere except A/a=0, C/c=1, G/g=2, T/t=3, for all 256 entries, and nothing else writes it; Ntoi returns the table entry for every byte (256-point transfer function); Iton maps 0,1,2,3 to A,C,G,T and every other integer to N (all regions its comparisons cut the integers into); hence Ntoi(Iton(k)) = k on 0..3 and Iton(Ntoi(x)) = upper(x) on the eight letters; (N-PANIC) in DNATo2Bit the Ntoi result reaches the packing only on the `!= -1` edge and the other edge panics; (MOD4) the shift is 6,4,2,0 for i mod 4 = 0,1,2,3 and a new byte is appended exactly when i mod 4 = 0 — 'first base in the most significant bits, four bases per byte' as a finite case split; (T-2BIT) the initialiser of the expansion table covers all 256 packed values and stores, for position p of value v, Iton((v >> 2(3-p)) & 3) — decided over all 1024 (v,p) pairs by a two-input transfer function; DNAFrom2Bit appends exactly that table row per source byte; (APPEND-ONLY) DNAFrom2Bit only appends to dst, neither function writes src. Not decided: the byte offset dn + i/4 and `dst[di] |=` read-modify-write as arithmetic on lengths (so 'leaving dst's existing content untouched' for DNATo2Bit is not decided), the two inverse laws as equalities over strings. N-PANIC follows a per-base helper whose body is the validation; T-2BIT accepts rows written by copy or in place.")
+	r.explain("Decides: (T-NTOI) the ntoi table after init is -1 everywhere except A/a=0, C/c=1, G/g=2, T/t=3, for all 256 entries, and nothing else writes it; Ntoi returns the table entry for every byte (256-point transfer function); Iton maps 0,1,2,3 to A,C,G,T and every other integer to N (all regions its comparisons cut the integers into); hence Ntoi(Iton(k)) = k on 0..3 and Iton(Ntoi(x)) = upper(x) on the eight letters; (N-PANIC) in DNATo2Bit the Ntoi result reaches the packing only on the `!= -1` edge and the other edge panics; (MOD4) the shift is 6,4,2,0 for i mod 4 = 0,1,2,3 and a new byte is appended exactly when i mod 4 = 0 — 'first base in the most significant bits, four bases per byte' as a finite case split; (T-2BIT) the initialiser of the expansion table covers all 256 packed values and stores, for position p of value v, Iton((v >> 2(3-p)) & 3) — decided over all 1024 (v,p) pairs by a two-input transfer function; DNAFrom2Bit appends exactly that table row per source byte; (APPEND-ONLY) DNAFrom2Bit only appends to dst, neither function writes src. Not decided: the byte offset dn + i/4 and `dst[di] |=` read-modify-write as arithmetic on lengths (so 'leaving dst's existing content untouched' for DNATo2Bit is not decided), the two inverse laws as equalities over strings. N-PANIC follows a per-base helper whose body is the validation; T-2BIT accepts rows written by copy or in place. T-NTOI and T-2BIT fall back on constant folding of the package initialiser (E-FOLD) when the initialiser has another shape; APPEND-ONLY accepts a store into the last element of the grown slice when an element has been appended on every way to it.")
 	r.assume("package initialisers run before any use")
 	funcs := c.moduleFuncs()
 	g := c.tableIn(c.fn("sequtil", "Ntoi"), 0)
